@@ -72,6 +72,8 @@ type endpoint struct {
 	infl      []*inflObs
 	defl      [][]byte
 	panics    *int
+	onInflate func() // one-shot: runs when this endpoint has taken an inflater for a message, before it reads from it
+	onDeflate func() // one-shot: runs when this endpoint has taken a deflater for a message, before it writes to it
 }
 
 func (e *endpoint) reset() {
@@ -120,9 +122,15 @@ func (c *fakeConn) SetWriteDeadline(t time.Time) error { return nil }
 type obsReader struct {
 	inner io.ReadCloser
 	o     *inflObs
+	pre   func() // runs once, after the reader was taken and before its first Read (another conn gets its turn there)
 }
 
 func (r *obsReader) Read(p []byte) (int, error) {
+	if r.pre != nil {
+		f := r.pre
+		r.pre = nil
+		f()
+	}
 	n, err := r.inner.Read(p)
 	r.o.out = append(r.o.out, p[:n]...)
 	st := 0
@@ -181,11 +189,18 @@ func newEndpoint(g wsCfg) *endpoint {
 		msg := all[:len(all)-len(websocket.VerifFlateReaderTail)]
 		o := &inflObs{key: lp.Fnv(msg)}
 		e.infl = append(e.infl, o)
-		return &obsReader{inner: websocket.VerifDecompressReader(bytes.NewReader(all)), o: o}
+		pre := e.onInflate
+		e.onInflate = nil
+		return &obsReader{inner: websocket.VerifDecompressReader(bytes.NewReader(all)), o: o, pre: pre}
 	}
 	u.WebsocketCompressor = func(c *websocket.Conn, w io.WriteCloser, level int) io.WriteCloser {
 		e.defl = append(e.defl, nil)
-		return websocket.VerifCompressWriter(&teeW{w: w, buf: &e.defl[len(e.defl)-1]}, level)
+		cw := websocket.VerifCompressWriter(&teeW{w: w, buf: &e.defl[len(e.defl)-1]}, level)
+		if f := e.onDeflate; f != nil { // another conn gets its turn between taking the writer and the first Write
+			e.onDeflate = nil
+			f()
+		}
+		return cw
 	}
 	u.OnMessage(func(c *websocket.Conn, mt websocket.MessageType, data []byte) {
 		e.acts = append(e.acts, fmt.Sprintf("deliver:%d:%s", mt, short(data)))
@@ -516,6 +531,9 @@ func exec(e *lp.Exec) {
 			execE(e, rc)
 		case f[0] == "W" && mode == "rt" && len(f) >= 4:
 			rt.execW(e, lg, f)
+		case f[0] == "I" && mode == "rt" && len(f) >= 5:
+			rt.second = f[4]
+			rt.execW(e, lg, f)
 		case f[0] == "B" && mode == "rt" && len(f) >= 3:
 			rt.execB(e, lg, f)
 		default:
@@ -618,6 +636,7 @@ func execD(e *lp.Exec, rc *recvCase, lg *capLogger, f []string) {
 	}
 	rc.evs = append(rc.evs, events(ep.acts, ep.writes)...)
 	rc.writes = append(rc.writes, ep.writes...)
+	poolOracle(e, rc.g.compress)
 	fmt.Fprintf(&rc.key, "%d:%d:%v:%v,", ec, len(ep.acts), cache > 0, ml > 0)
 	if cache0 > 0 || cache > 0 || ec != 0 || len(ep.acts) > 0 {
 		rc.nt = true
@@ -770,12 +789,18 @@ func stripCloses(evs []string) []string {
 	return out
 }
 
-// failureCode: the code of a close reply that does not signal a failure (0 = none such)
-func failureCode(evs []string) int {
-	for _, x := range evs {
-		if strings.HasPrefix(x, "close:") && !strings.HasPrefix(x, "close:#") && len(x) >= 10 {
-			p := lp.Unhex(x[6:10])
-			switch c := int(binary.BigEndian.Uint16(p)); c {
+// failureCode: the status of a close reply that does not signal a failure (0 = none such): a code outside the failure
+// codes, or no code at all (an empty or one-byte body: 1005 "no status", what a normal close without status is answered with)
+func failureCode(writes [][]byte) int {
+	for _, w := range writes {
+		for _, f := range refDecode(w) {
+			if f.op != 8 {
+				continue
+			}
+			if len(f.payload) < 2 {
+				return 1005
+			}
+			switch c := int(binary.BigEndian.Uint16(f.payload)); c {
 			case 1002, 1003, 1007, 1008, 1009, 1010, 1011:
 			default:
 				return c
@@ -811,7 +836,7 @@ func checkTwin(e *lp.Exec, rc *recvCase, tw twinResult, label string) {
 			bad = "did not fail the connection"
 		} else if !eq(stripCloses(rc.evs), stripCloses(tw.exp)) {
 			bad = "events differ before the failure"
-		} else if c := failureCode(rc.evs); c != 0 {
+		} else if c := failureCode(rc.writes); c != 0 {
 			bad = fmt.Sprintf("failure answered like a normal close (reply code %d)", c)
 			out = "echo"
 		}
@@ -873,6 +898,8 @@ func execE(e *lp.Exec, rc *recvCase) {
 type rtCase struct {
 	runEach bool // queued executor: run the queue after each Parse call (else after all segments of the op)
 	c, s    *endpoint
+	g, gc   wsCfg // configuration of s and c (a second pair of conns of the `I` op is built from them)
+	second  string // pending `I` op: where the second pair gets its turn ("i" inside the inflate, "d" inside the deflate)
 	limit  int
 	style  string
 	rng    *rand.Rand
@@ -894,7 +921,7 @@ func newRT(f []string) *rtCase {
 			gc.sendq = n
 		}
 	}
-	r := &rtCase{c: newEndpoint(gc), s: newEndpoint(g), limit: g.limit, style: field(f, "seg"),
+	r := &rtCase{c: newEndpoint(gc), s: newEndpoint(g), g: g, gc: gc, limit: g.limit, style: field(f, "seg"),
 		rng: rand.New(rand.NewSource(int64(atoi(field(f, "seed")))))}
 	if field(f, "exec") == "queued" {
 		r.c.queued, r.s.queued = true, true
@@ -995,6 +1022,47 @@ func typeOf(s string) int {
 	return atoi(s)
 }
 
+// secondPair: another pair of conns of the same engine configuration round-trips one message (the payload twice: a different
+// message, valid text if the first is) from write to delivery, at the moment it is called.  Connections are independent:
+// C12 holds for this pair whatever the other pair is in the middle of (implementation alone).
+func (r *rtCase) secondPair(e *lp.Exec, fromClient bool, mt int, data []byte, where string) {
+	if mt != 1 && mt != 2 {
+		return
+	}
+	d2 := append(append([]byte{}, data...), data...)
+	if (r.limit > 0 && len(d2)+16 > r.limit) || (mt == 1 && !utf8.Valid(d2)) {
+		return
+	}
+	c2, s2 := newEndpoint(r.gc), newEndpoint(r.g)
+	snd, rcv := c2, s2
+	if !fromClient {
+		snd, rcv = s2, c2
+	}
+	werr := errCode(snd.ws.WriteMessage(websocket.MessageType(mt), d2))
+	rerr := errCode(rcv.ws.Parse(bytes.Join(snd.writes, nil)))
+	rcv.runJobs()
+	if werr != 0 || rerr != 0 || len(rcv.delivered) != 1 || rcv.dtypes[0] != mt || !bytes.Equal(rcv.delivered[0], d2) {
+		got := "-"
+		if len(rcv.delivered) > 0 {
+			got = short(rcv.delivered[0])
+		}
+		e.Oracle("c12-roundtrip", "class=lost-or-changed second connection (its turn came inside the %s of the first one's message): type=%d sent %s werr=%d rerr=%d delivered=%d %s",
+			map[string]string{"i": "inflate", "d": "deflate", "": "-"}[where], mt, short(d2), werr, rerr, len(rcv.delivered), got)
+	}
+}
+
+// poolOracle: pool discipline of the per-message codec, on the implementation alone: an inflater or deflater is put back
+// once per use — one that sits in its pool twice is handed to two connections, whose messages then mix (C12 across
+// connections; the `I` ops show the effect, this shows the cause after any compressed message)
+func poolOracle(e *lp.Exec, compress bool) {
+	if !compress {
+		return
+	}
+	if rd, wr := websocket.VerifPoolDups(16); rd+wr > 0 {
+		e.Oracle("c12-roundtrip", "class=codec-pool an object was put back more than once: %d duplicate(s) among the pooled inflaters, %d among the deflaters", rd, wr)
+	}
+}
+
 func (r *rtCase) execW(e *lp.Exec, lg *capLogger, f []string) {
 	snd, rcv := r.c, r.s
 	if f[1] == "s" {
@@ -1004,7 +1072,23 @@ func (r *rtCase) execW(e *lp.Exec, lg *capLogger, f []string) {
 	data := parseSpec(f[3])
 	snd.reset()
 	rcv.reset()
+	// `I` op: a second pair of conns round-trips a message of its own while this one is in the middle of its message
+	where, ran := r.second, false
+	r.second = ""
+	turn := func() {
+		if !ran {
+			ran = true
+			r.secondPair(e, f[1] != "s", mt, data, where)
+		}
+	}
+	switch where {
+	case "d":
+		snd.onDeflate = turn
+	case "i":
+		rcv.onInflate = turn
+	}
 	werr := errCode(snd.ws.WriteMessage(websocket.MessageType(mt), data))
+	snd.onDeflate = nil
 	wire := bytes.Join(snd.writes, nil)
 	keys, defl := keysOf(snd.writes), snd.deflAnn()
 	cuts := r.cuts(len(wire))
@@ -1023,6 +1107,15 @@ func (r *rtCase) execW(e *lp.Exec, lg *capLogger, f []string) {
 		rest = rest[k:]
 	}
 	rcv.runJobs()
+	rcv.onInflate = nil
+	if where != "" {
+		if ran {
+			e.Count("second_pair", "inside-"+where)
+		} else {
+			e.Count("second_pair", "after") // no codec call on this message (not compressed, refused): the pair runs afterwards
+			turn()
+		}
+	}
 	racts, rwrites := rcv.acts, rcv.writes
 	back := bytes.Join(rwrites, nil)
 	bkeys := keysOf(rwrites)
@@ -1033,7 +1126,11 @@ func (r *rtCase) execW(e *lp.Exec, lg *capLogger, f []string) {
 		berr = errCode(snd.ws.Parse(append([]byte{}, back...)))
 		snd.runJobs()
 	}
-	e.P("> W %s %s %s keys=%s defl=%s cuts=%s infl=%s bkeys=%s rkeys=%s", f[1], f[2], f[3], keys, defl, strings.Join(cs, ","), rcv.inflAnn(), bkeys, keysOf(snd.writes[nw:]))
+	if where != "" {
+		e.P("> I %s %s %s %s keys=%s defl=%s cuts=%s infl=%s bkeys=%s rkeys=%s", f[1], f[2], f[3], where, keys, defl, strings.Join(cs, ","), rcv.inflAnn(), bkeys, keysOf(snd.writes[nw:]))
+	} else {
+		e.P("> W %s %s %s keys=%s defl=%s cuts=%s infl=%s bkeys=%s rkeys=%s", f[1], f[2], f[3], keys, defl, strings.Join(cs, ","), rcv.inflAnn(), bkeys, keysOf(snd.writes[nw:]))
+	}
 	// codec: for a compressed data message, "inflate (deflate x) = x" on what compress/flate really produced
 	// (the model computes it from the observed tables; here it is the constant the law demands)
 	codec := "-"
@@ -1049,6 +1146,7 @@ func (r *rtCase) execW(e *lp.Exec, lg *capLogger, f []string) {
 		e.Oracle("c12-roundtrip", "class=panic Parse recovered from a panic")
 		lg.panics = 0
 	}
+	poolOracle(e, r.g.compress)
 	fmt.Fprintf(&r.key, "%d:%d:%d:%d:%d,", mt, lenClass(len(data)), werr, rerr, len(rcv.delivered))
 	r.nt = true
 	e.Count("rt_ops", f[2])
@@ -1179,6 +1277,7 @@ func (r *rtCase) execB(e *lp.Exec, lg *capLogger, f []string) {
 		e.Oracle("c12-roundtrip", "class=panic Parse recovered from a panic")
 		lg.panics = 0
 	}
+	poolOracle(e, r.g.compress)
 	fmt.Fprintf(&r.key, "B%d:%d:%d:%d,", len(msgs), werr, rerr, len(rcv.delivered))
 	r.nt = true
 	e.Count("rt_ops", "batch")
